@@ -160,6 +160,20 @@ Section Fetcher.
   Qed.
 End Fetcher.
 
+(* "and then describes the same torrent": whatever the client's loader is (any function of the
+   torrent bytes "d4:info" ++ metadata ++ "e" — download_add; C08's loader model, partially applied to
+   its other arguments, is one instance; it is deliberately not imported so that work on C08 cannot
+   break this development), it yields the same result for the fetched metadata as for the original *)
+Definition wrap_info (m : list N) : list N := [100; 52; 58; 105; 110; 102; 111] ++ m ++ [101].
+
+Theorem magnet_same_download_generic : forall (A : Type) (load : list N -> A) (H : list N -> list N) orig ops d,
+  (forall x, H x = H orig -> x = orig) ->
+  f_done (frun H (H orig) ops) = Some d ->
+  load (wrap_info d) = load (wrap_info orig).
+Proof.
+  intros A load H orig ops d Hinj Hd. rewrite (magnet_same_torrent H orig ops d Hinj Hd). reflexivity.
+Qed.
+
 (* non-vacuity: with a toy "hash" an honest provider completes, a liar does not *)
 Definition toy_hash (l : list N) : list N := [N.of_nat (length l); fold_right N.add 0 l].
 Example honest_completes :
